@@ -33,11 +33,13 @@ def observe(tier):
     d = C.fresh_dir(os.path.join(C.BUILD, "loader"))
     tlc = model_check(tier)
     k = 1 if tier == "quick" else 2
-    cases = [[{"graph": g, "prog": p, "max_preempt": k, "sample": 40 if tier == "quick" else 200}] for g in GRAPHS for p in PROGS]
+    cases = [[{"graph": g, "prog": p, "max_preempt": k, "sample": 40 if tier == "quick" else 200, "variant": v}]
+             for v in ("terminology", "template") for g in GRAPHS for p in PROGS]
     n, files = par.replay_stream(cases, "harness.loader", os.path.join(d, "S"), shard=4000)
     return {"judge": [("JudgeLoader.tla", "JudgeLoader.cfg", files)], "tlc": tlc, "records": {"S": n},
             "explanation": "(1) TLC explores every interleaving of the PlusCal model OdmlLoader (table accesses, thread create/start/join, include recursion) for the listed "
                            "include graphs and caller programs against NoRaise/Transparent/SameCached/CacheSafe/Progress; (2) the real odml/terminology.py is run under a "
                            "deterministic scheduler for every schedule with at most %d preemption(s), 4 graphs x 6 programs; every execution is judged by TLC against "
-                           "LoaderContract, and a sample of the event logs is validated by TLC as behaviours of OdmlLoader (LoaderTrace)" % k,
+                           "LoaderContract, and a sample of the event logs is validated by TLC as behaviours of OdmlLoader (LoaderTrace); the same exploration and "
+                           "contract judging is done for TemplateHandler.load / deferred_load (own tables, includes through the terminology loader)" % k,
             "assumptions": ["cache_load is atomic (the property's granularity)", "one thread runs at a time; preemption only at table accesses and thread operations"]}
